@@ -182,16 +182,7 @@ func (root *Root) resolve(
 	switch tt := t.(type) {
 	case *List:
 		result, ea = root.resolveList(obj, vars, field, tt, depth-1)
-	case *Object, *Schema, *uuSchema:
-		result, ea = root.resolveFieldSels(obj, vars, field, t, depth-1)
-	case *Interface:
-		// The selections are resolved on the type of the object when it can
-		// be determined, the way it is for a union member, so that
-		// __typename is the object type and the fragments on it apply. The
-		// interface itself is used when the object type is not known.
-		if ot, _ := root.getReflectType(reflect.TypeOf(obj)).(*Object); ot != nil && ot.implements(tt) {
-			t = ot
-		}
+	case *Object, *Schema, *Interface, *uuSchema:
 		result, ea = root.resolveFieldSels(obj, vars, field, t, depth-1)
 	case *NonNull:
 		result, ea = root.resolve(obj, vars, field, tt.Base, depth)
@@ -629,7 +620,13 @@ func (root *Root) resolveField(
 	var ea2 []error
 	switch field.Name {
 	case "__typename":
-		result[field.key()] = t.Name()
+		// The name of the type of the object, t is the interface when the
+		// field is selected on an interface.
+		if ot := root.objectType(obj, t); ot != nil {
+			result[field.key()] = ot.Name()
+		} else {
+			result[field.key()] = t.Name()
+		}
 		return nil
 	case "__type":
 		if queryType != nil && t == queryType {
@@ -969,33 +966,66 @@ func (root *Root) resolveInline(
 	result map[string]interface{},
 	depth int) (ea []error) {
 
-	if fragmentApplies(sel.Condition, t) {
-		ea = root.resolveSels(obj, vars, sel.Sels, t, result, depth)
+	if ft := root.fragmentType(obj, sel.Condition, t); ft != nil {
+		ea = root.resolveSels(obj, vars, sel.Sels, ft, result, depth)
 	}
 	return
 }
 
-// fragmentApplies reports whether a fragment with the type condition applies
-// to an object of type t. It does when there is no condition, the condition
-// is the type, an interface the type implements or a union the type is a
-// member of.
-func fragmentApplies(cond, t Type) bool {
-	if cond == nil || cond == t {
-		return true
-	}
-	if ot, _ := t.(*Object); ot != nil {
-		switch tc := cond.(type) {
-		case *Interface:
-			return ot.implements(tc)
-		case *Union:
-			for _, m := range tc.Members {
-				if m == t {
-					return true
+// objectType returns the object type of obj where t is the type of the
+// position obj is at, t itself when it is an object type and for an interface
+// or union the object type the Go type of obj is bound to if that implements
+// the interface or is a member of the union. It is nil when the type can not
+// be determined.
+func (root *Root) objectType(obj interface{}, t Type) *Object {
+	switch tt := t.(type) {
+	case *Object:
+		return tt
+	case *Interface:
+		if ot, _ := root.getReflectType(reflect.TypeOf(obj)).(*Object); ot != nil && ot.implements(tt) {
+			return ot
+		}
+	case *Union:
+		if ot, _ := root.getReflectType(reflect.TypeOf(obj)).(*Object); ot != nil {
+			for _, m := range tt.Members {
+				if m == ot {
+					return ot
 				}
 			}
 		}
 	}
-	return false
+	return nil
+}
+
+// fragmentType returns the type the selections of a fragment with the type
+// condition cond are resolved on for obj at a position of type t or nil if
+// the fragment does not apply. A fragment applies when there is no
+// condition or the condition is the type of the position, the type of the
+// object, an interface that type implements or a union it is a member of.
+// The selections are then those of the condition.
+func (root *Root) fragmentType(obj interface{}, cond, t Type) Type {
+	if cond == nil || cond == t {
+		return t
+	}
+	if ot := root.objectType(obj, t); ot != nil {
+		switch tc := cond.(type) {
+		case *Object:
+			if tc == ot {
+				return tc
+			}
+		case *Interface:
+			if ot.implements(tc) {
+				return tc
+			}
+		case *Union:
+			for _, m := range tc.Members {
+				if m == ot {
+					return tc
+				}
+			}
+		}
+	}
+	return nil
 }
 
 func (root *Root) resolveFragRef(
@@ -1006,8 +1036,8 @@ func (root *Root) resolveFragRef(
 	result map[string]interface{},
 	depth int) (ea []error) {
 
-	if fragmentApplies(sel.Fragment.Condition, t) {
-		ea = root.resolveSels(obj, vars, sel.Fragment.Sels, t, result, depth)
+	if ft := root.fragmentType(obj, sel.Fragment.Condition, t); ft != nil {
+		ea = root.resolveSels(obj, vars, sel.Fragment.Sels, ft, result, depth)
 		if 0 < len(ea) {
 			Errors(ea).in(fmt.Sprintf("fragment at %d:%d", sel.Line(), sel.Column()))
 		}
